@@ -2,6 +2,8 @@
 // overwrites with the same and with different shapes, reopen cycles with each access level) against the REAL
 // CheckpointFile / CheckpointWriter / CheckpointReader and the system HDF5.  Every read uses a fresh handle on the file.
 #include "common.h"
+#include <cstring>
+#include <cmath>
 #include <memory>
 #include <sstream>
 #include <unistd.h>
@@ -226,6 +228,56 @@ static void scenario(Rng &r, long id) {
   printf("%s\n", o.str().c_str());
 }
 
+// ---- large values ("any shape including ... large"): the harness compares bit for bit itself and reports counts (the values do not
+// fit a protocol line); element counts straddle the powers of two around HDF5's storage-layout limits
+static void big_scenario(Rng &r, long id) {
+  std::string file = tmpdir() + "/c17_" + std::to_string((int)getpid()) + "_" + std::to_string(id) + "b.hdf5";
+  unlink(file.c_str());
+  static const long counts[] = {1000, 4095, 4096, 8190, 8191, 8192, 8193, 10000, 16383, 16384, 32767, 32768, 32769, 65536, 90000, 250000};
+  static const char *kinds[] = {"m", "m", "m", "vd", "vi"};
+  static const char *paths[] = {"/", "/g1", "/g1/sub", "/g2"};
+  long n = counts[r.below(16)];
+  std::string kind = kinds[r.below(5)], path = paths[r.below(4)];
+  long rows = n, cols = 1;
+  if (kind == "m") {
+    int sh = (int)r.below(4);
+    if (sh == 1) { rows = 1; cols = n; }
+    else if (sh == 2) { long q = (long)std::floor(std::sqrt((double)n)); rows = q; cols = q; }
+    else if (sh == 3) { long q = (long)std::floor(std::sqrt((double)n)); rows = q + 1; cols = n / (q + 1); }
+  }
+  int pre = (int)r.below(3);      // 0: written once; 1: a small value of the same kind first, then the large one; 2: the large one first, then a small one
+  Val big; big.kind = kind;
+  if (kind == "m") { big.m = Eigen::MatrixXd(rows, cols); for (Index i = 0; i < rows; i++) for (Index j = 0; j < cols; j++) big.m(i, j) = rdbl(r); }
+  else if (kind == "vd") { for (long k = 0; k < n; k++) big.vd.push_back(rdbl(r)); }
+  else { for (long k = 0; k < n; k++) big.vi.push_back(r.range(-1000000, 1000000)); }
+  Val small = gen(r, kind);
+  const Val &first = pre == 1 ? small : big;
+  const Val &last = pre == 0 ? big : (pre == 1 ? big : small);
+  std::string w1 = "ok", w2 = "-", rs = "ok";
+  try { CheckpointFile f(file, CheckpointAccessLevel::CREATE); CheckpointWriter w = writer_at(f, path); write_val(w, first, "big"); } catch (std::exception &e) { w1 = "err"; }
+  if (pre != 0) { w2 = "ok"; try { CheckpointFile f(file, CheckpointAccessLevel::MODIFY); CheckpointWriter w = writer_at(f, path); write_val(w, last, "big"); } catch (std::exception &e) { w2 = "err"; } }
+  long mism = 0, firstbad = -1, nback = -1;
+  try {
+    CheckpointFile f(file, CheckpointAccessLevel::READ);
+    CheckpointReader rd = reader_at(f, path);
+    Val back = read_val(rd, kind, "big");
+    auto cmp = [&](long k, const void *a, const void *b, size_t sz) { if (memcmp(a, b, sz) != 0) { mism++; if (firstbad < 0) firstbad = k; } };
+    if (kind == "m") {
+      nback = back.m.size();
+      if (back.m.rows() != last.m.rows() || back.m.cols() != last.m.cols()) { mism = -1; }
+      else for (Index i = 0; i < last.m.rows(); i++) for (Index j = 0; j < last.m.cols(); j++) cmp(i * last.m.cols() + j, &back.m(i, j), &last.m(i, j), sizeof(double));
+    } else if (kind == "vd") {
+      nback = (long)back.vd.size();
+      if (back.vd.size() != last.vd.size()) mism = -1; else for (size_t k = 0; k < last.vd.size(); k++) cmp((long)k, &back.vd[k], &last.vd[k], sizeof(double));
+    } else {
+      nback = (long)back.vi.size();
+      if (back.vi.size() != last.vi.size()) mism = -1; else for (size_t k = 0; k < last.vi.size(); k++) cmp((long)k, &back.vi[k], &last.vi[k], sizeof(last.vi[k]));
+    }
+  } catch (std::exception &e) { rs = "err"; }
+  unlink(file.c_str());
+  printf("C17 big %s %ld %ld %s %d %s %s %s %ld %ld %ld\n", kind.c_str(), rows, cols, hexs(path).c_str(), pre, w1.c_str(), w2.c_str(), rs.c_str(), nback, mism, firstbad);
+}
+
 int main(int argc, char **argv) {
   std::string mode = argc > 1 ? argv[1] : "rand";
   long N = argc > 2 ? atol(argv[2]) : 100;
@@ -236,6 +288,6 @@ int main(int argc, char **argv) {
     while (std::getline(std::cin, line)) if (line.rfind("C17", 0) == 0) printf("%s\n", line.c_str());
     return 0;
   }
-  for (long i = 0; i < N; i++) { if (r.coin(1, 6)) table_scenario(r, i); else scenario(r, i); }
+  for (long i = 0; i < N; i++) { if (r.coin(1, 6)) table_scenario(r, i); else if (r.coin(1, 8)) big_scenario(r, i); else scenario(r, i); }
   return 0;
 }
